@@ -38,6 +38,10 @@ type xCase struct {
 	// ViaCLI: take the emitted files from the built CLI writing into directories that already hold
 	// longer files of the same names (a previous, larger revision), not from the in-process maps
 	ViaCLI bool `json:"via_cli,omitempty"`
+	// Text, when set, is the DSL text to compile instead of the plain rendering of Prog: the same
+	// program in another spelling (long type names, attributes before or behind the name, key
+	// lists expanded or folded, optional separators, ...) and layout, which means the same (C08)
+	Text string `json:"text,omitempty"`
 }
 
 // langRun is what one language did with a case.
@@ -79,6 +83,9 @@ func hasSum(p *dsl.Program) bool { return dsl.Has(p.Features(), "sum") }
 func runCase(k xCase, keep bool) *xRun {
 	p := k.Prog
 	x := &xRun{Text: dsl.PlainText(p), Langs: map[string]*langRun{}, HasSum: hasSum(p)}
+	if k.Text != "" {
+		x.Text = k.Text
+	}
 	// the generators run in the order cmd.Compile uses (Lua, Rust, Go, Java, Python, C++)
 	var ordered []string
 	for _, l := range inproc.Langs {
@@ -344,6 +351,9 @@ func genXCase(rt *rapid.T, cfg dsl.GenCfg, nmsgs int, vc dsl.ValCfg, suffixes bo
 			}
 		}
 		k.Msgs = append(k.Msgs, m)
+	}
+	if rapid.IntRange(0, 3).Draw(rt, "respell") == 0 {
+		k.Text, _ = dsl.Render(p, &RapidSpeller{T: rt, Tag: "xsp"}, dsl.RandLayout{T: rt, Label: "xlay"}, dsl.RenderOpts{NoPadRewrites: true})
 	}
 	return k
 }
